@@ -14,6 +14,32 @@ for (const d of fs.readdirSync(path.join(V, 'seeded')).sort()) {
   md += `| ${d} | ${m.breaks_property} | ${String(needs).replace(/\|/g, '\\|')} | ${m.checks_quick_seed1 ? m.checks_quick_seed1.fired.join(', ') || '—' : 'not run'} | ${m.notes ? m.notes.replace(/\|/g, '\\|') : 'caught as first built'} |\n`
 }
 fs.writeFileSync(path.join(V, 'seeded', 'INDEX.md'), md)
+// compact version inside DESIGN.md (between the markers): which checks catch which change
+{
+  const rows = []
+  const rounds = {}
+  for (const d of fs.readdirSync(path.join(V, 'seeded')).sort()) {
+    const mp = path.join(V, 'seeded', d, 'meta.json')
+    if (!fs.existsSync(mp)) continue
+    const m = JSON.parse(fs.readFileSync(mp, 'utf8'))
+    const fired = m.checks_quick_seed1 ? m.checks_quick_seed1.fired : []
+    const missedFirst = !!m.notes // a note is only written when the target check missed the change at first
+    const round = (/^agent(\d+)/.exec(d) || [])[1] || '?'
+    rounds[round] = rounds[round] || { n: 0, first: 0, now: 0 }
+    rounds[round].n++
+    if (!missedFirst) rounds[round].first++
+    if (fired.includes(m.breaks_property)) rounds[round].now++
+    let idea = ''
+    try { const r = fs.readFileSync(path.join(V, 'seeded', d, 'README.md'), 'utf8'); const t = r.split('\n').find(l => /^#\s/.test(l)); idea = (t || '').replace(/^#\s*/, '').replace(/seeded change[^:—-]*[:—-]?\s*/i, '').slice(0, 90) } catch (e) {}
+    rows.push(`| ${d} | ${m.breaks_property} | ${fired.join(' ') || '—'} | ${missedFirst ? 'missed, workload/oracle strengthened' : 'yes'} | ${idea.replace(/\|/g, '\\|')} |`)
+  }
+  const summary = Object.keys(rounds).sort().map(r => `round ${r}: ${rounds[r].n} changes, ${rounds[r].first} caught by the target check as first built, ${rounds[r].now} caught now`).join('; ')
+  const block = `<!-- SEEDS-TABLE-BEGIN -->\n${summary}.\n\n| change | breaks | quick checks that fire now (seed 1) | caught when first run | idea |\n|---|---|---|---|---|\n${rows.join('\n')}\n<!-- SEEDS-TABLE-END -->`
+  const dp = path.join(V, 'DESIGN.md')
+  let ds = fs.readFileSync(dp, 'utf8')
+  if (/<!-- SEEDS-TABLE-BEGIN -->[\s\S]*<!-- SEEDS-TABLE-END -->/.test(ds)) ds = ds.replace(/<!-- SEEDS-TABLE-BEGIN -->[\s\S]*<!-- SEEDS-TABLE-END -->/, () => block)
+  fs.writeFileSync(dp, ds)
+}
 let own = '# Hand-written seeded changes (DESIGN section 8)\n\n`tools/mkown.py` writes the patches, `tools/mutant.js` runs them. Changes that fail the 98 baseline tests are not valid seeds and are listed only for the record.\n\n| change | baseline tests | quick checks that fire | silent |\n|---|---|---|---|\n'
 const od = path.join(V, 'selftest', 'own')
 for (const f of fs.readdirSync(od).filter(x => x.endsWith('.result.json')).sort()) {
